@@ -6,7 +6,9 @@ import (
 	"fmt"
 	"math/big"
 	"math/rand"
+	"os"
 	"sort"
+	"strings"
 	"sync"
 	"testing"
 	"time"
@@ -82,6 +84,31 @@ func TestC09(t *testing.T) {
 		}(w)
 	}
 	wg.Wait()
+	pins := pinnedChains
+	if os.Getenv("VERIF_C09_PIN_SCAN") != "" {
+		pins = nil
+		for k := 0; k < 60; k++ {
+			pins = append(pins, k)
+		}
+	}
+	{
+		node := core.NewNode(core.NodeConfig{ChainID: "teleport_9000-1", XIBCName: "teleport", Accounts: []*core.Account{core.NewAccount("a")}})
+		node.Begin(time.Date(2022, 1, 2, 0, 0, 5, 0, time.UTC))
+		for _, k := range pins {
+			id := fmt.Sprintf("pinned-%d", k)
+			if !r.Want(id) {
+				continue
+			}
+			before := r.KnownHits()
+			c := newChain(r, node, id, 100000+k)
+			c.run()
+			if os.Getenv("VERIF_C09_PIN_SCAN") != "" {
+				fmt.Printf("PINSCAN %d known_hits=%d\n", k, r.KnownHits()-before)
+			}
+			r.Count("pinned_chains", 1)
+		}
+		node.End()
+	}
 	r.Set("distinct_model_states", len(states))
 	if !r.Replaying() {
 		reachabilityProbe(r)
@@ -165,8 +192,18 @@ type chain struct {
 	anchorN int
 }
 
+// pinnedChains: seeds of seed-independent chains that reach the known finding of this property (found with VERIF_C09_PIN_SCAN=1).
+var pinnedChains = []int{2, 17}
+
 func newChain(r *core.Run, node *core.Node, id string, idx int) *chain {
 	rng := r.Rng(id)
+	if strings.HasPrefix(id, "pinned-") {
+		// pinned chains do not depend on VERIF_SEED: they re-create, in every run, histories known to reach the listed
+		// known finding, so that its KNOWN-FINDING line (or its disappearance after a repair) shows at every seed
+		var k int64
+		fmt.Sscanf(id, "pinned-%d", &k)
+		rng = rand.New(rand.NewSource(7700 + k))
+	}
 	c := &chain{r: r, id: id, idx: idx, rng: rng, node: node, name: fmt.Sprintf("bsc-%d", idx), byAddr: map[common.Address]*val{}, lists: map[uint64][]common.Address{}, states: map[string]struct{}{}}
 	switch p := rng.Intn(20); {
 	case p < 9:
@@ -1116,6 +1153,12 @@ func (c *chain) compare(ctx sdk.Context, m *model, h *bsctypes.Header) (string, 
 		}
 	}
 	for hh, ad := range m.recents {
+		if hh+m.window() <= n {
+			// the oldest entry of Parlia's table (block n - floor(N/2)) is not one of "the last floor(N/2) blocks" for
+			// the next header any more: whether the client still stores it decides nothing (it drops it early when it prunes
+			// an expired consensus state of that height)
+			continue
+		}
 		if seen[hh] != ad {
 			return "state/recents/sealer-missing", map[string]interface{}{"height": hh, "truth": ad.Hex(), "observed_heights": keysOf(seen)}
 		}
